@@ -86,7 +86,11 @@ structure PyErr where
 /-! ### String helpers (on `List Char`, so that they reduce in the kernel) -/
 
 def isPyWs (c : Char) : Bool :=
-  c == ' ' || c == '\t' || c == '\n' || c == '\r' || c == '\x0b' || c == '\x0c'
+  c == ' ' || c == '\t' || c == '\n' || c == '\r' || c == '\x0b' || c == '\x0c' ||
+  -- the rest of `str.isspace()`: FS/GS/RS/US, NEL, NBSP and the Unicode space separators
+  c == '\x1c' || c == '\x1d' || c == '\x1e' || c == '\x1f' || c == '\u0085' || c == '\u00a0' ||
+  c == '\u1680' || ('\u2000' ≤ c && c ≤ '\u200a') || c == '\u2028' || c == '\u2029' || c == '\u202f' ||
+  c == '\u205f' || c == '\u3000'
 
 def lstripL : List Char → List Char
   | [] => []
